@@ -35,7 +35,8 @@ def gens(tier):
             vf.tlc_gen('gen/MC_C02tok', c['tok'], timeout=1500),
             vf.tlc_gen('gen/MC_C02tok', c['deep'], timeout=1500),
             vf.tlc_gen('gen/MC_C02tok', c['mem'], timeout=1500),
-            vf.tlc_gen('gen/MC_C02tokx', c['tokx'], timeout=1500)]
+            vf.tlc_gen('gen/MC_C02tokx', c['tokx'], timeout=1500),
+            vf.tlc_gen('gen/MC_C02nest', 'gen/MC_C02nest.cfg', timeout=1500)]
 
 
 def setup():
